@@ -363,6 +363,23 @@ func (in *Interp) convert(v Value, from, to types.Type) Value {
 		}
 	case *PtrV:
 		_ = fu
+		if x != nil && x.obj != nil && x.obj.kind == "cbuf" && x.obj.cwidth > 0 {
+			// a caller-owned C buffer viewed through a Go pointer type: the element width of the
+			// pointee must be the C element's width, else every access through it fuses or splits
+			// adjacent elements and runs past the end of the buffer
+			if pt, ok := tu.(*types.Pointer); ok {
+				el := pt.Elem().Underlying()
+				if arr, ok := el.(*types.Array); ok {
+					el = arr.Elem().Underlying()
+				}
+				if b, ok := el.(*types.Basic); ok && b.Info()&types.IsNumeric != 0 {
+					if w := types.SizesFor("gc", "amd64").Sizeof(b); int(w) != x.obj.cwidth {
+						in.obligation("c-buffer-viewed-with-wrong-element-width", "cwidth", in.ts.False())
+						panic(pathDead{"C buffer reinterpreted with a different element width"})
+					}
+				}
+			}
+		}
 		return x
 	case *SliceV:
 		if isString(to) {
